@@ -40,6 +40,9 @@ pub struct Case {
     /// mem_init_zero_anywhere / mem_init_anywhere; the addresses handed out are part of the digest
     #[serde(default)]
     pub anywhere: Vec<(u64, bool)>,
+    /// the built-in brk handler is installed (its heap placement and break arithmetic are outputs too)
+    #[serde(default)]
+    pub brk: bool,
 }
 
 pub struct C20;
@@ -124,6 +127,9 @@ pub fn run_once(c: &Case) -> Result<RunResult, String> {
         Some((argv, envp)) => placed.push(ax.init_stack_program_start(0x800, argv.clone(), envp.clone()).map_err(|e| e.to_string())?),
     }
     ax.set_max_instructions(c.limit);
+    if c.brk {
+        ax.handle_syscalls(vec![ax_x86::helpers::syscalls::Syscall::Brk]).map_err(|e| e.to_string())?;
+    }
     let script = HookScript { outcomes: c.hooks.iter().map(|h| vec![h.2]).collect(), modify: c.hooks.iter().map(|h| h.3).collect(), register_inside: None };
     prog::reset_hooks(script);
     for (id, h) in c.hooks.iter().enumerate() {
@@ -147,7 +153,9 @@ pub fn run_once(c: &Case) -> Result<RunResult, String> {
         };
         match step(&mut ax) {
             Api::Ok(cont) => {
-                if let Some(i) = ins {
+                // (SYSCALL: the architecture clobbers RCX and R11, the emulator leaves that to the handlers —
+                // OS-interface instructions are outside C01 — so nothing becomes defined through it)
+                if let Some(i) = ins.filter(|i| i.mnemonic() != iced_x86::Mnemonic::Syscall) {
                     for ur in f.info(&i).used_registers() {
                         let r = ur.register();
                         if r.is_gpr() && matches!(ur.access(), OpAccess::Write) && (r.is_gpr64() || r.is_gpr32()) {
@@ -330,7 +338,23 @@ impl Property for C20 {
             None
         };
         let anywhere = (0..t.weighted(&[60, 25, 15])).map(|_| (t.pick(&[1u64, 8, 0x40, 0x1000, 0x1001]), t.bool())).collect();
-        Case { prog: p, written, seed, flags, fs, gs, limit, hooks, cross_process, xmm_written, elf_syms, start_frame, anywhere }
+        // 1/4: the built-in brk handler serves the program's SYSCALLs; the slot before a SYSCALL then loads
+        // RAX with 12 (brk) most of the time and the one before that a break request into RDI
+        let brk = t.below(4) == 0;
+        let mut p = p;
+        if brk {
+            for i in 1..p.len() {
+                if matches!(p[i], PI::Syscall) && t.below(4) != 0 {
+                    p[i - 1] = PI::MovImm { r: 0, imm: 12 };
+                    if i >= 2 {
+                        p[i - 2] = PI::MovImm { r: 5, imm: t.pick(&[0u64, 1, 0x2000, 0x1_0000, 0x7fff_0000, u64::MAX]) };
+                    }
+                }
+            }
+        }
+        // the handler reads the call number and its argument: RAX and RDI are explicit inputs then
+        let written = if brk { written | 1 | 1 << 7 } else { written };
+        Case { prog: p, written, seed, flags, fs, gs, limit, hooks, cross_process, xmm_written, elf_syms, start_frame, anywhere, brk }
     }
 
     fn exec(&mut self, c: &Case) -> CaseOut {
@@ -357,6 +381,9 @@ impl Property for C20 {
         }
         if !c.anywhere.is_empty() {
             out = out.class("anywhere-areas");
+        }
+        if c.brk && c.prog.iter().any(|p| matches!(p, PI::Syscall)) {
+            out = out.class("brk-handler-with-syscalls");
         }
         if c.prog.iter().any(|p| matches!(p, PI::Syscall)) && c.hooks.len() >= 2 {
             out = out.class("syscall-with-several-hooks");
@@ -411,10 +438,10 @@ impl Property for C20 {
     }
 
     fn rule(&self) -> String {
-        "cases: slot-grid programs of 2–20 instructions (all generated instruction kinds incl. stack, calls, register-indirect transfers) where every register any instruction may read (iced used_registers incl. implicit and partial-width destinations) is written explicitly and the others keep the constructor's random fill; explicit flags, FS/GS, a data area, a stack; XMM moves/xor/load/store incl. both MOVUPS register encodings; 1/3 of the programs loaded from a generated ELF whose symbol table has aliases (two names on one address); 0–3 identical scripted hooks (incl. unhooked SYSCALLs beside hooks on other mnemonics); for 1/4 of the cases the stack is an entry frame with argv/envp strings and 0–2 areas are placed by mem_init_anywhere / mem_init_zero_anywhere, the addresses handed out being part of the digest; oracle: two independently constructed machines in one process — and for 1/16 of the cases a separately exec'd process (fresh ASLR and hash seeds) — must agree on a digest of defined registers, flags, FS/GS, every area byte, executed count, structured trace, call stack, rendered trace()/call_stack() text, resolve_symbol of every symbol address, result and full error text, and hook events; non-trivial = ≥1 register left random and ≥2 instructions; distinct by hash(case)".into()
+        "cases: slot-grid programs of 2–20 instructions (all generated instruction kinds incl. stack, calls, register-indirect transfers) where every register any instruction may read (iced used_registers incl. implicit and partial-width destinations) is written explicitly and the others keep the constructor's random fill; explicit flags, FS/GS, a data area, a stack; XMM moves/xor/load/store incl. both MOVUPS register encodings; 1/3 of the programs loaded from a generated ELF whose symbol table has aliases (two names on one address); 0–3 identical scripted hooks (incl. unhooked SYSCALLs beside hooks on other mnemonics); for 1/4 of the cases the stack is an entry frame with argv/envp strings and 0–2 areas are placed by mem_init_anywhere / mem_init_zero_anywhere, the addresses handed out being part of the digest; for 1/4 the built-in brk handler serves the program's SYSCALLs; oracle: two independently constructed machines in one process — and for 1/16 of the cases a separately exec'd process (fresh ASLR and hash seeds) — must agree on a digest of defined registers, flags, FS/GS, every area byte, executed count, structured trace, call stack, rendered trace()/call_stack() text, resolve_symbol of every symbol address, result and full error text, and hook events; non-trivial = ≥1 register left random and ≥2 instructions; distinct by hash(case)".into()
     }
     fn required_classes(&self, _tier: Tier) -> Vec<String> {
-        ["ends-in-error", "finishes", "with-hooks", "cross-process", "elf-with-symbol-aliases", "uses-xmm", "entry-frame-with-strings", "anywhere-areas", "syscall-with-several-hooks"].iter().map(|s| s.to_string()).collect()
+        ["ends-in-error", "finishes", "with-hooks", "cross-process", "elf-with-symbol-aliases", "uses-xmm", "entry-frame-with-strings", "anywhere-areas", "syscall-with-several-hooks", "brk-handler-with-syscalls"].iter().map(|s| s.to_string()).collect()
     }
     fn assumptions(&self) -> Vec<String> {
         vec!["the defined set (explicitly written ∪ fully written by an executed instruction or a hook; GPRs and XMM) is what is compared".into(), "pipe descriptor numbers do not occur (no pipe handler in these programs)".into()]
